@@ -358,6 +358,30 @@ func (g *gctx) genFile(f *File) {
 		for i, n := 0, g.intn(1, hi(3), "nstruct"); i < n; i++ {
 			st := g.genStruct()
 			add(st)
+			// a REQUIRED field typed by a typedef of a list (or set, map): for the serializers the
+			// empty value of such a field is the nil slice / map, whatever name the type goes by
+			if st.Kind != DUnion && g.chance(1, 6, "reqtdlist") {
+				var tds []*Def
+				for _, d := range g.pool {
+					if d.Kind == DTypedef && d.Target != nil && (d.Target.K == TList || d.Target.K == TSet || d.Target.K == TMap) && d.Target.Annots == nil {
+						tds = append(tds, d)
+					}
+				}
+				var td *Def
+				if len(tds) > 0 && g.chance(2, 3, "reqtdlist_reuse") {
+					td = tds[g.intn(0, len(tds)-1, "reqtdlist_i")]
+				} else {
+					td = &Def{Kind: DTypedef, Name: g.newTypeName(), Target: &Type{K: TList, Elem: &Type{K: pickStr(g, baseKinds, "reqtdlist_elem")}}}
+					add(td)
+				}
+				usedNames, usedIDs := map[string]bool{}, map[int]bool{}
+				for _, fl := range st.Fields {
+					usedNames[GoNameOf(fl.Name, fl.Annots)] = true
+					usedNames["name:"+fl.Name] = true
+					usedIDs[fl.ID] = true
+				}
+				st.Fields = append(st.Fields, &Field{ID: g.genFieldID(usedIDs), Name: g.fieldName(usedNames), Type: &Type{K: TRef, Ref: &Ref{File: td.File, Name: td.Name}}, Req: "required"})
+			}
 			// mutually recursive group: typedef chain over the struct, referenced
 			// back from an optional (or container) field of the struct itself
 			if g.o.Recursive && st.Kind != DUnion && g.chance(1, 5, "recgroup") {
